@@ -29,10 +29,15 @@ type FsCase struct {
 
 // ---- generator ----------------------------------------------------------------
 
-func genContent(r *vf.Rand, base, ncid int) Content {
+func genContent(r *vf.Rand, base, ncid int, twins bool) Content {
 	switch x := r.Intn(100); {
 	case x < 50:
-		return Content{Kind: Valid, Cid: base + 1 + r.Intn(ncid)}
+		cid := base + 1 + r.Intn(ncid)
+		if twins && r.Chance(25) {
+			cid += 16 // the twin: same rule ids, other rule bodies
+		}
+
+		return Content{Kind: Valid, Cid: cid}
 	case x < 65:
 		return Content{Kind: Absent}
 	case x < 80:
@@ -110,7 +115,7 @@ func FsGen(r *vf.Rand, disjoint bool) FsCase {
 	if r.Chance(25) { // some files exist before the provider starts
 		for f := 0; f < c.NFiles; f++ {
 			if r.Chance(70) {
-				w := genContent(r, base(f), ncid)
+				w := genContent(r, base(f), ncid, disjoint)
 				c.Hist = append(c.Hist, FsEvent{Kind: "set", F: f, W: w})
 				present[f] = w.Kind != Absent
 			}
@@ -124,7 +129,7 @@ func FsGen(r *vf.Rand, disjoint bool) FsCase {
 
 		switch x := r.Intn(100); {
 		case x < 45:
-			w := genContent(r, base(f), ncid)
+			w := genContent(r, base(f), ncid, disjoint)
 			c.Hist = append(c.Hist, FsEvent{Kind: "set", F: f, W: w})
 
 			if orderly || r.Chance(50) {
